@@ -1,6 +1,6 @@
-(* Proofs/PerfConcatRename.v — identifier renaming commutes with the string-concat detector once names carry
-   no meaning (q_concat_name_table = false, besides the two locality flags): for a one-to-one renaming that
-   keeps `str` apart,  concat_reports q (renameF sg file) = map (renameR sg) (concat_reports q file). *)
+(* Proofs/PerfConcatRename.v — identifier renaming commutes with the string-concat detector (the two locality flags
+   off): for a one-to-one renaming that keeps `str` apart and moves no name into or out of the name table in force
+   (the documented names when q_concat_name_table = false, the code's longer table otherwise),  concat_reports q (renameF sg file) = map (renameR sg) (concat_reports q file). *)
 From TL Require Import Lib.Base Lib.GenTypes Gen.EmbedGen Model.Embed Model.PrintStmt Model.PerfConcat
      Proofs.EmbedLocality Proofs.PrintStmtLocal Proofs.PerfConcatLocal.
 
@@ -176,16 +176,15 @@ Qed.
 
 Section Ren.
   Variables (q : cquirks) (sg : string -> string).
-  (* either names carry no meaning, or the renaming moves no name into or out of the name table *)
-  Hypothesis Hn : q_concat_name_table q = false
-                  \/ (forall x, smem (lower (sg x)) sc_patterns = smem (lower x) sc_patterns).
+  (* the renaming moves no name into or out of the name table in force *)
+  Hypothesis Hn : forall x, smem (lower (sg x)) (name_table q) = smem (lower x) (name_table q).
   Hypothesis Hs : cc_sigma_ok sg.
 
   Lemma likely_rename s x v : likely q (renS sg s) (sg x) (rename sg v) = likely q s x v.
   Proof.
     destruct Hs as [Hi Hk]. unfold likely. rewrite (in_nons_ren sg x s Hi), (in_strs_ren sg x s Hi).
     rewrite is_string_value_rename, (is_str_call_rename sg v Hk), is_string_binop_rename.
-    destruct Hn as [-> | Ht]; [reflexivity|]. now rewrite Ht.
+    now rewrite Hn.
   Qed.
 
   Lemma cand_here_rename s l r t :
